@@ -71,14 +71,17 @@ type rec struct {
 }
 
 func (r *rec) ServeHTTP(w http.ResponseWriter, req *http.Request) {
-	r.mu.Lock()
-	r.reqs = append(r.reqs, req.Method+" "+req.URL.Path)
-	r.mu.Unlock()
+	if req.Method != "PUT" {
+		r.mu.Lock()
+		r.reqs = append(r.reqs, req.Method+" "+req.URL.Path)
+		r.mu.Unlock()
+	}
 	switch req.Method {
 	case "PUT":
 		b, _ := io.ReadAll(req.Body)
 		r.mu.Lock()
 		r.store[req.URL.Path] = b
+		r.reqs = append(r.reqs, req.Method+" "+req.URL.Path) // recorded once the object is stored
 		r.mu.Unlock()
 	case "GET", "HEAD":
 		r.mu.Lock()
